@@ -79,6 +79,9 @@ def rand_doc(rng, T, i):
         if k < 30:      # several pattern classes
             b = rng.choice(bases)
             cl = ['%s-%d' % (rng.choice([b, rng.choice(bases)]), rng.range(0, 100)) for _ in range(rng.range(2, 6))]
+            if rng.chance(0.4):      # the same spacing spelled in several ways (5, 05, 005): equal sort keys, distinct classes
+                v = rng.range(1, 9)
+                cl += ['%s-%s' % (b, sp) for sp in rng.sample(['%d' % v, '0%d' % v, '00%d' % v, '+%d' % v], rng.range(2, 3))]
             cl += rng.sample(['d-red', 'd-fill-azure', 'd-softshadow', 'd-hardshadow', 'd-arrow', 'd-biarrow', 'd-flow', 'd-dash', 'mine'], rng.range(0, 3))
             parts.append('<rect id="p%d" xy="%d %d" wh="%d" class="%s"/>' % (j, rng.range(0, 40), rng.range(0, 40), rng.range(2, 12), ' '.join(cl)))
             ids.append('p%d' % j); feats.add('patterns')
@@ -94,6 +97,8 @@ def rand_doc(rng, T, i):
             bad = rng.choice(['<rect xy="#zz%d|h" wh="2"/>' % j, '<circle r="{{1+}}"/>', '<line xy1="#nope%d@r" xy2="3 4"/>' % j,
                               '<rect wh="{{randint(3,1)}}"/>', '<rect xy="^|h 2" wh="1"/>', '<reuse href="#missing%d"/>' % j,
                               '<rect surround="#ghost%d" />' % j])
+            if rng.chance(0.5):      # several failing elements on ONE source line (equal line numbers in the error report)
+                bad = ' '.join('<rect xy="#zz%d_%d|h" wh="2"/>' % (j, q) for q in range(rng.range(2, 6)))
             parts.append(bad); feats.add('errors')
         elif k < 88:    # reuse with many attribute overrides
             parts.append('<specs><g id="t%d"><rect wh="$w $h" fill="$fill" stroke="$stroke" rx="$rx"/><text xy="1 1" text="$label"/></g></specs>' % j)
